@@ -76,12 +76,15 @@ func TestVerifC20Backoff(t *testing.T) {
 	maxes := []int64{1, 120 * sec, 3600 * sec, 1 << 62, math.MaxInt64 - 1, math.MaxInt64}
 	mults := []c20Frac{{1, 1}, {3, 2}, {2, 1}, {8, 5}, {1, 2}, {5, 4}}
 	jits := []c20Frac{{0, 1}, {1, 5}, {1, 4}, {1, 2}, {1, 1}, {3, 2}}
-	ns := []int{0, 1, 2, 3, 5, 8, 16, 40, 64}
+	ns := []int{0, 1, 2, 3, 8, 20}
+	if os.Getenv("VERIF_TIER") == "thorough" {
+		ns = []int{0, 1, 2, 3, 5, 8, 16, 40, 64}
+	}
 	// the documented default, every retry count up to the cap and beyond
 	for i := 0; i <= 20; i++ {
 		emit(sec, 120*sec, c20Frac{8, 5}, c20Frac{1, 5}, i)
 	}
-	for _, i := range []int{40, 64, 200} {
+	for _, i := range []int{64, 200} {
 		emit(sec, 120*sec, c20Frac{8, 5}, c20Frac{1, 5}, i)
 	}
 	for _, max := range maxes {
